@@ -236,16 +236,16 @@ RunOps(Kx, e, h, ops, acc) ==
             [] op[1] = "ret" -> RunOps(Kx, e, h, Tail(ops), op[2])
             [] op[1] = "raise" -> <<Emit(Kx, <<opl("raise")>>), 0, "raise", -1>>
             [] op[1] = "exit" -> <<Emit(Kx, << [opl("exit") EXCEPT !.x = op[2]] >>), 0, "exit", op[2]>>
-            [] op[1] = "kbint" -> <<Emit(Kx, <<opl("kbint")>>), 0, "kbint", -1>>
+            [] op[1] = "kbint" -> <<Emit(Kx, << [opl("kbint") EXCEPT !.x = -1] >>), 0, "kbint", -1>>
             [] op[1] = "stopmgr" ->
-                 LET K1 == Emit(Kx, << [opl("stopmgr") EXCEPT !.x = op[2]] >>)
+                 LET K1 == Emit(Kx, << [opl("stopmgr") EXCEPT !.x = op[2], !.c = c] >>)
                      st == DoStop(K1, op[2], TRUE)
                  IN IF ExitDeferred
                     THEN RunOps([st[1] EXCEPT !.run.exit = IF @ = -1 /\ Kx.running THEN op[2] ELSE @], e, h, Tail(ops), acc)
                     ELSE IF st[2] THEN <<st[1], 0, "exit", op[2]>>     \* stop(code) raised SystemExit(code)
                     ELSE RunOps(st[1], e, h, Tail(ops), acc)
             [] op[1] = "stop2" ->
-                 LET K1 == Emit(Kx, << [opl("stop2") EXCEPT !.x = op[2]] >>)
+                 LET K1 == Emit(Kx, << [opl("stop2") EXCEPT !.x = op[2], !.c = RootK(Kx, c)] >>)
                      st == DoStop(K1, op[2], FALSE)          \* in another thread: its SystemExit stays there
                  IN RunOps(IF ExitDeferred THEN [st[1] EXCEPT !.run.exit = IF @ = -1 /\ Kx.running THEN op[2] ELSE @] ELSE st[1],
                            e, h, Tail(ops), acc)
